@@ -355,287 +355,3 @@ Proof. reflexivity. Qed.
 
 End Unfold.
 
-(** * Stores *)
-
-Lemma list_extends_refl {A} (l : list A) : list_extends l l.
-Proof. exists []. symmetry; apply app_nil_r. Qed.
-Lemma list_extends_trans {A} (a b c : list A) : list_extends a b -> list_extends b c -> list_extends a c.
-Proof. intros [x ->] [y ->]. exists (x ++ y). symmetry; apply app_assoc. Qed.
-Lemma list_extends_app {A} (l x : list A) : list_extends l (l ++ x).
-Proof. exists x; reflexivity. Qed.
-Lemma list_extends_length {A} (a b : list A) : list_extends a b -> (llen a <= llen b)%nat.
-Proof. intros [x ->]. rewrite app_length. lia. Qed.
-
-Lemma store_extends_refl s : store_extends s s.
-Proof. unfold store_extends. repeat split; apply list_extends_refl. Qed.
-Lemma store_extends_trans a b c : store_extends a b -> store_extends b c -> store_extends a c.
-Proof.
-  unfold store_extends. intros (A1 & A2 & A3 & A4 & A5 & A6) (B1 & B2 & B3 & B4 & B5 & B6).
-  repeat split; try congruence; eapply list_extends_trans; eauto.
-Qed.
-
-Lemma nth_N_app_l {A} (l x : list A) n v : nth_N l n = Some v -> nth_N (l ++ x) n = Some v.
-Proof.
-  revert n; induction l as [|y l IH]; intros [|n] H; cbn in *; try discriminate; auto.
-Qed.
-Lemma nth_N_lt {A} (l : list A) n v : nth_N l n = Some v -> (n < llen l)%nat.
-Proof. revert n; induction l as [|y l IH]; intros [|n] H; cbn in *; try discriminate; try lia. apply IH in H. lia. Qed.
-Lemma nth_N_length {A} (l : list A) v : nth_N (l ++ [v]) (llen l) = Some v.
-Proof. induction l; cbn; auto. Qed.
-Lemma nth_N_extends {A} (l l' : list A) n v : list_extends l l' -> nth_N l n = Some v -> nth_N l' n = Some v.
-Proof. intros [x ->]. apply nth_N_app_l. Qed.
-
-Lemma nth_N_set_same {A} (l : list A) n v x : nth_N l n = Some x -> nth_N (set_nth l n v) n = Some v.
-Proof. revert n; induction l as [|y l IH]; intros [|n] H; cbn in *; try discriminate; auto. Qed.
-Lemma nth_N_set_other {A} (l : list A) n m v : n <> m -> nth_N (set_nth l n v) m = nth_N l m.
-Proof.
-  revert n m; induction l as [|y l IH]; intros [|n] [|m] H; cbn; try reflexivity; try congruence.
-  apply IH. congruence.
-Qed.
-Lemma set_nth_length {A} (l : list A) n v : llen (set_nth l n v) = llen l.
-Proof. revert n; induction l as [|y l IH]; intros [|n]; cbn; auto. Qed.
-Lemma set_nth_app_r {A} (l x : list A) n v : (llen l <= n)%nat ->
-  set_nth (l ++ x) n v = l ++ set_nth x (n - llen l) v.
-Proof.
-  revert n; induction l as [|y l IH]; intros n H; cbn [List.length app] in *.
-  - now rewrite Nat.sub_0_r.
-  - destruct n as [|n]; [lia|]. cbn [set_nth]. rewrite IH by lia. reflexivity.
-Qed.
-Lemma set_nth_extends {A} (l l' : list A) n v : list_extends l l' -> (llen l <= n)%nat ->
-  list_extends l (set_nth l' n v).
-Proof. intros [x ->] H. rewrite set_nth_app_r by exact H. apply list_extends_app. Qed.
-
-(** plain tables: allocated, without metatable *)
-Definition plain_tab (s : store) (a : N) : Prop :=
-  exists t, nth_N (tables s) (N.to_nat a) = Some t /\ t_meta t = None.
-Definition plain (s : store) (v : value) : Prop :=
-  match v with VTable a => plain_tab s a | _ => True end.
-
-Lemma plain_tab_extends s s' a : store_extends s s' -> plain_tab s a -> plain_tab s' a.
-Proof.
-  intros (_ & _ & _ & _ & Ht & _) (t & H1 & H2). exists t. split; auto. eapply nth_N_extends; eauto.
-Qed.
-Lemma plain_extends s s' v : store_extends s s' -> plain s v -> plain s' v.
-Proof. destruct v; cbn; auto. apply plain_tab_extends. Qed.
-Lemma strmeta_plain_extends s s' : store_extends s s' -> strmeta_plain s -> strmeta_plain s'.
-Proof.
-  intros (_ & _ & _ & _ & Ht & _) (t & H1 & H2). exists t. split; auto. eapply nth_N_extends; eauto.
-Qed.
-Lemma globals_plain_extends s s' : store_extends s s' -> globals_plain s -> globals_plain s'.
-Proof. apply plain_tab_extends. Qed.
-Lemma env_plain_extends s s' : store_extends s s' -> env_plain s -> env_plain s'.
-Proof. intros H [A B]. split; [eapply globals_plain_extends|eapply strmeta_plain_extends]; eauto. Qed.
-
-Lemma get_cell_ok a s v s' : get_cell a s = Ok v s' -> s' = s.
-Proof. unfold get_cell. destruct nth_N; intros H; inversion H; auto. Qed.
-Lemma get_table_ok a s t s' : get_table a s = Ok t s' -> s' = s /\ nth_N (tables s) (N.to_nat a) = Some t.
-Proof. unfold get_table. destruct nth_N; intros H; inversion H; subst; auto. Qed.
-Lemma get_table_some a s t : nth_N (tables s) (N.to_nat a) = Some t -> get_table a s = Ok t s.
-Proof. unfold get_table. intros ->. reflexivity. Qed.
-
-Lemma new_closure_ok c s a s' : new_closure c s = Ok a s' ->
-  store_extends s s' /\ N.to_nat a = llen (closures s) /\ closures s' = closures s ++ [c] /\ tables s' = tables s.
-Proof.
-  unfold new_closure. intros H; inversion H; subst; clear H. unfold store_extends; cbn.
-  rewrite Nat2N.id. repeat split; try apply list_extends_refl. apply list_extends_app.
-Qed.
-Lemma new_table_ok t s a s' : new_table t s = Ok a s' ->
-  store_extends s s' /\ N.to_nat a = llen (tables s) /\ tables s' = tables s ++ [t].
-Proof.
-  unfold new_table. intros H; inversion H; subst; clear H. unfold store_extends; cbn.
-  rewrite Nat2N.id. repeat split; try apply list_extends_refl. apply list_extends_app.
-Qed.
-
-(** [put] on a table allocated after [s0] keeps the store an extension of [s0], keeps the
-    table without metatable, and leaves every other table alone *)
-Lemma put_ok s0 a k v s s' :
-  put a k v s = Ok tt s' -> store_extends s0 s -> (llen (tables s0) <= N.to_nat a)%nat ->
-  plain_tab s a ->
-  store_extends s0 s' /\ plain_tab s' a /\ llen (tables s') = llen (tables s) /\
-  (forall b, b <> a -> nth_N (tables s') (N.to_nat b) = nth_N (tables s) (N.to_nat b)) /\
-  closures s' = closures s.
-Proof.
-  unfold put. intros H Hext Hlen (t0 & Ht0 & Hm0). inv_ok H.
-  apply get_table_ok in H0 as [-> Ht]. rewrite Ht0 in Ht. inversion Ht; subst a0; clear Ht.
-  destruct (norm_key k) as [k'|]; [|inv_ok H1].
-  unfold set_table in H1. inversion H1; subst s'; clear H1. cbn [tables closures].
-  destruct Hext as (E1 & E2 & E3 & E4 & E5 & E6).
-  split; [|split; [|split; [|split]]].
-  - unfold store_extends; cbn. repeat split; auto. apply set_nth_extends; auto.
-  - eexists. split. { eapply nth_N_set_same; eauto. } exact Hm0.
-  - apply set_nth_length.
-  - intros b Hb. apply nth_N_set_other. intros E. apply Hb. now apply N2Nat.inj.
-  - reflexivity.
-Qed.
-
-Lemma put_pos_ok s0 a pos v s s' :
-  put_pos a pos v s = Ok tt s' -> store_extends s0 s -> (llen (tables s0) <= N.to_nat a)%nat ->
-  plain_tab s a ->
-  store_extends s0 s' /\ plain_tab s' a /\ llen (tables s') = llen (tables s) /\
-  (forall b, b <> a -> nth_N (tables s') (N.to_nat b) = nth_N (tables s) (N.to_nat b)) /\
-  closures s' = closures s.
-Proof.
-  unfold put_pos. intros H.
-  destruct v; try (apply put_ok; exact H).
-  inv_ok H. subst. intros. repeat split; auto.
-Qed.
-
-Lemma fill_go_ok s0 a : forall vs pos s u s',
-  fill_go a vs pos s = Ok u s' -> store_extends s0 s -> (llen (tables s0) <= N.to_nat a)%nat ->
-  plain_tab s a ->
-  store_extends s0 s' /\ plain_tab s' a /\ llen (tables s') = llen (tables s) /\
-  (forall b, b <> a -> nth_N (tables s') (N.to_nat b) = nth_N (tables s) (N.to_nat b)) /\
-  closures s' = closures s.
-Proof.
-  induction vs as [|v vs IH]; intros pos s u s' H Hext Hlen Hp; cbn [fill_go] in H.
-  - inv_ok H. subst. repeat split; auto.
-  - inv_ok H. destruct a0.
-    destruct (put_pos_ok _ _ _ _ _ _ H0 Hext Hlen Hp) as (A1 & A2 & A3 & A4 & A5).
-    destruct (IH _ _ _ _ H1 A1 Hlen A2) as (B1 & B2 & B3 & B4 & B5).
-    repeat split; auto; try congruence.
-    intros b Hb. rewrite B4, A4; auto.
-Qed.
-
-(** * Metamethods of plain values *)
-
-Lemma metamethod_plain s v ev :
-  strmeta_plain s -> plain s v -> raw_equal (vstr "__index") (vstr ev) = false ->
-  metamethod v ev s = Ok VNil s.
-Proof.
-  intros (ts & Hts & Hes) Hp Hev. unfold metamethod, metatable_of.
-  destruct v; try reflexivity.
-  - (* string *)
-    unfold bind, ret. rewrite (get_table_some _ _ _ Hts). rewrite Hes. cbn [raw_get]. rewrite Hev. reflexivity.
-  - destruct Hp as (t & Ht & Hm). unfold bind, ret. rewrite (get_table_some _ _ _ Ht). rewrite Hm. reflexivity.
-Qed.
-
-Lemma metamethod_plain_tab s a ev : plain_tab s a -> metamethod (VTable a) ev s = Ok VNil s.
-Proof.
-  intros (t & Ht & Hm). unfold metamethod, metatable_of, bind, ret.
-  rewrite (get_table_some _ _ _ Ht). rewrite Hm. reflexivity.
-Qed.
-
-Ltac mm_plain H :=
-  rewrite metamethod_plain in H by (assumption || reflexivity).
-
-Section Ops.
-Variable d : dialect.
-
-Lemma tostr_plain n v s r s' : strmeta_plain s -> plain s v ->
-  tostr d n v s = Ok r s' ->
-  s' = s /\ r = VStr match v with
-                     | VNil => of_string "nil"
-                     | VBool true => of_string "true"
-                     | VBool false => of_string "false"
-                     | VNum x => tostring_num d x
-                     | VStr s => s
-                     | VTable _ => of_string "table"
-                     | _ => of_string "function"
-                     end.
-Proof.
-  intros Hs Hp H. destruct n; [discriminate|]. rewrite tostr_S in H.
-  unfold bind in H. rewrite metamethod_plain in H by (assumption || reflexivity).
-  inv_ok H. auto.
-Qed.
-
-Lemma arith_plain n o a b s r s' : strmeta_plain s -> plain s a -> plain s b ->
-  arith d n o a b s = Ok r s' ->
-  s' = s /\ exists x y z, tonum a = Some x /\ tonum b = Some y /\ arith_num d o x y = Some z /\ r = VNum z.
-Proof.
-  intros Hs Ha Hb H. destruct n; [discriminate|]. rewrite arith_S in H.
-  assert (forall ev, arith_name o = Some ev -> raw_equal (vstr "__index") (vstr ev) = false) as Hev.
-  { intros ev. destruct o; cbn; intros E; inversion E; reflexivity. }
-  assert (match arith_name o with
-          | None => unsup 21
-          | Some ev =>
-            h <- metamethod a ev ;;
-            h <- (match h with VNil => metamethod b ev | _ => ret h end) ;;
-            match h with
-            | VNil => fail 14
-            | _ => vs <- call d n h [a; b] ;; ret (first vs)
-            end
-          end s = Ok r s' -> False) as Hno.
-  { destruct (arith_name o) as [ev|] eqn:E; [|discriminate].
-    unfold bind. rewrite metamethod_plain by auto. rewrite metamethod_plain by auto. discriminate. }
-  destruct (tonum a) as [x|]; [|exfalso; auto].
-  destruct (tonum b) as [y|]; [|exfalso; auto].
-  destruct (arith_num d o x y) as [z|] eqn:E; [|discriminate].
-  inv_ok H. subst. split; auto. exists x, y, z. auto.
-Qed.
-
-Lemma concat_plain n a b s r s' : strmeta_plain s -> plain s a -> plain s b ->
-  concat d n a b s = Ok r s' ->
-  s' = s /\ exists x y, cstr d a = Some x /\ cstr d b = Some y /\ r = VStr (x ++ y).
-Proof.
-  intros Hs Ha Hb H. destruct n; [discriminate|]. rewrite concat_S in H.
-  assert ((h <- metamethod a "__concat" ;;
-           h <- (match h with VNil => metamethod b "__concat" | _ => ret h end) ;;
-           match h with
-           | VNil => fail 15
-           | _ => vs <- call d n h [a; b] ;; ret (first vs)
-           end) s = Ok r s' -> False) as Hno.
-  { unfold bind. rewrite metamethod_plain by (assumption || reflexivity).
-    rewrite metamethod_plain by (assumption || reflexivity). discriminate. }
-  destruct (cstr d a) as [x|]; [|exfalso; auto].
-  destruct (cstr d b) as [y|]; [|exfalso; auto].
-  inv_ok H. subst. split; auto. exists x, y. auto.
-Qed.
-
-Lemma equal_plain n a b s r s' : plain s a -> plain s b ->
-  equal d n a b s = Ok r s' -> s' = s /\ r = raw_equal a b.
-Proof.
-  intros Ha Hb H. destruct n; [discriminate|]. rewrite equal_S in H.
-  destruct (raw_equal a b) eqn:E.
-  { inv_ok H. subst; auto. }
-  destruct a; try (inv_ok H; subst; auto; fail).
-  destruct b; try (inv_ok H; subst; auto; fail).
-  unfold bind in H. cbn [plain] in Ha, Hb.
-  rewrite (metamethod_plain_tab _ _ _ Ha) in H. rewrite (metamethod_plain_tab _ _ _ Hb) in H.
-  destruct d; cbn in H; inv_ok H; subst; auto.
-Qed.
-
-Lemma less_plain n strict a b s r s' : strmeta_plain s -> plain s a -> plain s b ->
-  less d n strict a b s = Ok r s' ->
-  s' = s /\ ((exists x y, a = VNum x /\ b = VNum y /\ r = if strict then fltb x y else fleb x y) \/
-             (exists x y, a = VStr x /\ b = VStr y /\ r = if strict then bytes_ltb x y else bytes_leb x y)).
-Proof.
-  intros Hs Ha Hb H. destruct n; [discriminate|]. rewrite less_S in H.
-  destruct a, b;
-    try (inv_ok H; subst; split; [reflexivity|]; eauto 8; fail);
-    exfalso; cbv beta iota zeta in H; unfold bind in H;
-    rewrite metamethod_plain in H by (assumption || (destruct strict; reflexivity));
-    rewrite metamethod_plain in H by (assumption || (destruct strict; reflexivity));
-    (destruct strict; [discriminate|]);
-    (destruct n; [discriminate|]); rewrite less_S in H; cbv beta iota zeta in H; unfold bind in H;
-    rewrite metamethod_plain in H by (assumption || reflexivity);
-    rewrite metamethod_plain in H by (assumption || reflexivity);
-    discriminate.
-Qed.
-
-Lemma length_plain n v s r s' : strmeta_plain s -> plain s v ->
-  length d n v s = Ok r s' ->
-  s' = s /\ ((exists x, v = VStr x /\ r = VNum (of_Z (Z.of_nat (List.length x)))) \/
-             (exists a, v = VTable a)).
-Proof.
-  intros Hs Hp H. destruct n; [discriminate|]. rewrite length_S in H.
-  destruct v;
-    try (exfalso; unfold bind in H; rewrite metamethod_plain in H by (assumption || reflexivity);
-         discriminate).
-  - inv_ok H. subst. split; eauto.
-  - assert ((if is_luau d then metamethod (VTable a) "__len" else ret VNil) s = Ok VNil s) as E.
-    { destruct (is_luau d); [|reflexivity]. apply metamethod_plain_tab. exact Hp. }
-    unfold bind in H. rewrite E in H. fold (@bind table value) in H.
-    change ((t <- get_table a ;; ret (VNum (of_Z (border (t_entries t))))) s = Ok r s') in H.
-    inv_ok H. apply get_table_ok in H0 as [-> _]. subst. split; eauto.
-Qed.
-
-Lemma index_globals_plain n k s v s' : globals_plain s ->
-  index d n (VTable A_globals) k s = Ok v s' -> s' = s.
-Proof.
-  intros Hg H. destruct n; [discriminate|]. rewrite index_S_table in H.
-  inv_ok H. apply get_table_ok in H0 as [-> Ht].
-  destruct (raw_get _ _); try (inv_ok H1; subst; reflexivity).
-  unfold bind in H1. rewrite (metamethod_plain_tab _ _ _ Hg) in H1. inv_ok H1. subst; reflexivity.
-Qed.
-
-End Ops.
